@@ -188,21 +188,21 @@ func (h *faultFile) Truncate(size int64) error {
 }
 
 func (h *faultFile) Read(p []byte) (int, error) {
-	if h.f.Reads && h.f.hit("read " + h.name) {
+	if h.f.Reads && h.f.hit("read "+h.name) {
 		return 0, ErrInjected
 	}
 	return h.File.Read(p)
 }
 
 func (h *faultFile) ReadAt(p []byte, off int64) (int, error) {
-	if h.f.Reads && h.f.hit("read " + h.name) {
+	if h.f.Reads && h.f.hit("read "+h.name) {
 		return 0, ErrInjected
 	}
 	return h.File.ReadAt(p, off)
 }
 
 func (h *faultFile) Slice(start, end int64) ([]byte, error) {
-	if h.f.Reads && h.f.hit("read " + h.name) {
+	if h.f.Reads && h.f.hit("read "+h.name) {
 		return nil, ErrInjected
 	}
 	return h.File.Slice(start, end)
